@@ -479,6 +479,27 @@ func (g *c10Gen) idList(kind string, f fttypes.Files, present bool) (string, str
 			} else {
 				ids[i] = ""
 			}
+		case 3:
+			// an id that merely contains, or is contained in, an id of the list (ids are arbitrary strings for the chain)
+			ids[i] = hexsha("related")
+			if m, ok := c10Parse(map[string]string{"view": f.ViewingAccess, "edit": f.EditAccess}[kind]); ok && len(m) > 0 {
+				ks := make([]string, 0, len(m))
+				for k := range m {
+					ks = append(ks, k)
+				}
+				sort.Strings(ks)
+				k := PickOne(g.p, ks)
+				switch g.p.Intn(3) {
+				case 0:
+					ids[i] = k + "-old"
+				case 1:
+					ids[i] = "x" + k
+				default:
+					if len(k) > 2 {
+						ids[i] = k[:len(k)/2+1]
+					}
+				}
+			}
 		default:
 			ids[i] = c10AclAddr(kind, f.TrackingNumber, g.accts[g.p.Intn(len(g.accts))].String())
 		}
@@ -993,6 +1014,7 @@ func runC10(r *RunCtx) error {
 		g := &c10Gen{p: p.Fork(), accts: accts}
 		var hist []c10Op
 		var forced *c10Op
+		var queue []c10Op
 		// opening: account 0 provisions a root shared with editors 1,2 and viewer 3 (most histories)
 		opening := []c10Op{}
 		if g.p.Chance(5, 6) {
@@ -1031,7 +1053,22 @@ func runC10(r *RunCtx) error {
 					forced = &f
 				}
 			}
-			if forced != nil && s >= len(opening) {
+			// directed: plain-text ids one of which is contained in another ("ops" / "ops-oncall", "v1" / "v10"); the owner
+			// removes only the longer one
+			if h%2 == 0 && s == len(opening) && len(opening) > 0 && len(preL) > 0 {
+				if own := g.ownerOf(preL[0].F); own >= 0 {
+					tgt := preL[0].F
+					mk := func(kind, k, ids, keys string) c10Op {
+						return c10Op{Kind: kind, K: k, Creator: g.accts[own].String(), Address: tgt.Address, FileOwner: tgt.Owner, Ids: ids, Keys: keys, Shape: "contained-ids"}
+					}
+					queue = append(queue, mk("add", "edit", "ops,ops-oncall", "k1,k2"), mk("remove", "edit", "ops-oncall", ""),
+						mk("add", "view", "v1,v10,v100", "a,b,c"), mk("remove", "view", "v100,v10", ""), mk("remove", "edit", c10Editor(tgt.TrackingNumber, g.accts[own].String())+"-old", ""))
+				}
+			}
+			if len(queue) > 0 && forced == nil && s >= len(opening) {
+				o = queue[0]
+				queue = queue[1:]
+			} else if forced != nil && s >= len(opening) {
 				o = *forced
 				forced = nil
 			} else if s < len(opening) {
